@@ -86,7 +86,38 @@ impl Debug for AbsoluteTime {
 
 #[cfg(not(test))]
 pub fn now_monotonic() -> std::time::Instant {
+    #[cfg(feature = "verif")]
+    if let Some(t) = verif_clock::get() { return t; }
     std::time::Instant::now()
+}
+
+/// Verification hook (feature `verif`): a thread-local monotonic clock that, when set,
+/// replaces `Instant::now()` in `now_monotonic` (the counterpart of `mock_time` for
+/// non-test builds).
+#[cfg(feature = "verif")]
+pub mod verif_clock {
+    use std::cell::Cell;
+    use std::time::{Duration, Instant};
+
+    thread_local! {
+        static CLOCK: Cell<Option<Instant>> = const { Cell::new(None) };
+    }
+
+    pub fn set(time: Option<Instant>) {
+        CLOCK.with(|c| c.set(time));
+    }
+
+    pub fn get() -> Option<Instant> {
+        CLOCK.with(|c| c.get())
+    }
+
+    pub fn advance(d: Duration) {
+        CLOCK.with(|c| {
+            if let Some(t) = c.get() {
+                c.set(Some(t + d));
+            }
+        });
+    }
 }
 
 use crate::common::parser2::{CharParser, ParseError, all_consuming, parse_u32};
